@@ -188,7 +188,7 @@ pub fn run(prop: &str, ctx: &mut Ctx, rep: &mut Report) {
         "reuse",
         &format!(
             "query histories on ONE TfmPvalue object: operation alphabet = {} queries (approximate_pvalue for 3 scores {{below the minimum, middle, maximum}} stopped after 1 step or run to convergence; approximate_score for 2 p-values stopped after 1 or 2 steps or run to convergence); \
-             ALL histories of length 2..={} whose last query belongs to this property, re-executed on a fresh object, on the {} matrices of width 2..=4 under every background configuration + every hand matrix of width <= 4 (quick: under 3 of the 13 wildcard/background configurations); \
+             ALL histories of length 2..={} whose last query belongs to this property, re-executed on a fresh object, on the {} matrices of width 2..=4 under every background configuration + every hand matrix of width <= 4 (quick: under 3 of the 15 wildcard/background configurations); \
              oracle: the answer to the last query equals the answer of a fresh object on every refinement step (probabilities within 1e-9: hash-map iteration order changes the summation order) (whose answers the logodds/hand spaces check against the exact distribution)",
             oplist.len(),
             depth,
